@@ -386,7 +386,7 @@ func ruleForcePushOnce(r *core.Run) {
 					continue // append / assignment
 				}
 				n++
-				key := core.Key("T-forcepush", r.P.Name(f), "Metadata.Commits shrinks at most once")
+				key := core.Key("T-forcepush", r.KeyName(f), "Metadata.Commits shrinks at most once")
 				inLoop := false
 				for _, l := range loops {
 					if l.Body[b] {
@@ -541,7 +541,7 @@ func rulePersisted(r *core.Run, id string, typeNames ...string) {
 		scanned++
 		seen := map[string]bool{}
 		for _, u := range unpersisted(r, f, tn) {
-			key := core.Key(id, r.P.Name(f), u.Field)
+			key := core.Key(id, r.KeyName(f), u.Field)
 			if seen[key] {
 				continue
 			}
